@@ -1069,6 +1069,74 @@ func c04r18(c *Ctx, r *Report) {
 	r.floor("components of the match offset in Pattern.iter", n, 2)
 }
 
+// c09r27: the query is limited to maxPatternLength runes by Terminal.truncateQuery, which Terminal.Loop calls after
+// the actions of a key. Actions bound to events (change, backward-eof, jump, jump-cancel) run later in the same
+// iteration and can set the query as well, so the limit is applied again behind them (D108: it was not:
+// `change:change-query(<1200 characters>)` left a 1200-rune query for good, and after a jump-bound change-query the
+// next unrelated action cut the query — and changed the result list).
+func c09r27(c *Ctx, r *Report) {
+	l := c.L
+	r.rule("C09-R27", "A (must-pass-through: the length limit follows every action list)", "P1",
+		"in Terminal.Loop, every path from a call of doActions / doAction to the read of `changed` that decides about the search request passes a call of Terminal.truncateQuery, except paths on which Terminal.inputless was read as true (the query is put back there)",
+		"a query set by an event-bound action exceeds the limit until some unrelated action cuts it: a navigation key changes the query and the list")
+	loop := l.Fn("fzf", "(*Terminal).Loop")
+	trunc := l.Fn("fzf", "(*Terminal).truncateQuery")
+	fLess := l.Field("fzf", "Terminal", "inputless")
+	if loop == nil || trunc == nil || fLess == nil {
+		r.unest("anchors", token.NoPos, nil, "anchors Terminal.Loop / truncateQuery / inputless", "cannot resolve")
+		return
+	}
+	cellNamed := func(v ssa.Value, name string) bool {
+		u, ok := v.(*ssa.UnOp)
+		if !ok || u.Op != token.MUL {
+			return false
+		}
+		al, ok := u.X.(*ssa.Alloc)
+		return ok && al.Comment == name
+	}
+	var reads []ssa.Instruction
+	eachInstr(loop, func(in ssa.Instruction) {
+		if u, ok := in.(*ssa.UnOp); ok && cellNamed(u, "changed") {
+			reads = append(reads, u)
+		}
+	})
+	if len(reads) == 0 {
+		r.unest(relName(loop)+":read of changed", loop.Pos(), loop, "the read of `changed` at the end of the iteration", "not found")
+		return
+	}
+	sort.Slice(reads, func(i, j int) bool { return reads[i].Pos() < reads[j].Pos() })
+	final := reads[len(reads)-1]
+	isTrunc := func(in ssa.Instruction) bool { return staticCallee(in) == trunc }
+	edgeOK := func(from, to *ssa.BasicBlock) bool {
+		if to.Dominates(from) {
+			return false
+		}
+		iff, ok := from.Instrs[len(from.Instrs)-1].(*ssa.If)
+		if !ok {
+			return true
+		}
+		if f, _ := loadedField(iff.Cond); f == fLess {
+			return to != from.Succs[0] // the inputless edge
+		}
+		return true
+	}
+	n := 0
+	eachInstr(loop, func(in ssa.Instruction) {
+		call, ok := in.(*ssa.Call)
+		if !ok {
+			return
+		}
+		if !cellNamed(call.Call.Value, "doActions") && !cellNamed(call.Call.Value, "doAction") {
+			return
+		}
+		n++
+		hit := pathAvoiding(call, func(x ssa.Instruction) bool { return x == final }, isTrunc, edgeOK)
+		r.check(hit == nil, fmt.Sprintf("%s:action list #%d is followed by truncateQuery", relName(loop), n), call.Pos(), loop,
+			"the length limit is applied before the query is compared and searched", "a path from this action list reaches the decision about the search request without truncateQuery")
+	})
+	r.floor("action lists dispatched by Terminal.Loop", n, 5)
+}
+
 func round11(c *Ctx, r *Report, prop string) {
 	switch prop {
 	case "C01":
@@ -1094,6 +1162,7 @@ func round11(c *Ctx, r *Report, prop string) {
 		c08r30(c, r)
 	case "C09":
 		c09r26(c, r)
+		c09r27(c, r)
 		c08r23(c, r) // the selection is dropped when the list is replaced: mergers carry the revision they were made for
 	case "C10":
 		c10r15(c, r)
